@@ -60,6 +60,37 @@ type Cluster struct {
 	stopped bool
 	envStrict bool
 	nested    bool // inside a composite operation (heal): nested operations are not logged
+	trBytes   int  // bytes of trace written so far
+	overrun   string
+}
+
+// Budget of one schedule. On the unchanged tree a schedule makes below 7,000 calls (thorough:
+// below 15,000) and the network holds a few dozen messages; a modified tree may loop, flood
+// the network or grow its queues without bound, and the check must still terminate.
+const (
+	maxCalls    = 40000
+	maxNet      = 4000
+	maxTraceLen = 96 << 20
+)
+
+// over: the schedule has used up its budget; it is cut off here (and reported by heal, C15,
+// when that happens in a fault-free suffix).
+func (c *Cluster) over() bool {
+	if c.overrun != "" {
+		return true
+	}
+	switch {
+	case c.seq > maxCalls:
+		c.overrun = fmt.Sprintf("more than %d calls", maxCalls)
+	case len(c.net) > maxNet:
+		c.overrun = fmt.Sprintf("more than %d messages in flight", maxNet)
+	case c.trBytes > maxTraceLen:
+		c.overrun = fmt.Sprintf("more than %d MB of observations", maxTraceLen>>20)
+	}
+	if c.overrun != "" {
+		c.stopped = true
+	}
+	return c.overrun != ""
 }
 
 func (c *Cluster) logOp(format string, a ...any) {
